@@ -10,7 +10,6 @@
 //! get_sorted_lifecycles_as_vec, lifecycles with control requests only left out> R:<id>-<resumed id> …`
 use crate::lc::{mk, M};
 use crate::{Area, Rng};
-use adlt::dlt::*;
 use adlt::lifecycle::*;
 use adlt::utils::remote_types::{self, BinType};
 use std::io::Write;
@@ -49,40 +48,6 @@ fn ecu_nr(e: u32) -> u8 {
 fn run(case: &str) -> String {
     let msgs = expand(case);
     let total = msgs.len() as u32;
-    // the library's own final table and listing
-    let (tx, rx) = channel();
-    for (i, m) in msgs.iter().enumerate() {
-        let mut d = mk(m);
-        d.index = i as u32;
-        tx.send(d).unwrap();
-    }
-    drop(tx);
-    let (lcs_r, lcs_w) = evmap::Options::default().with_hasher(nohash_hasher::BuildNoHashHasher::<LifecycleId>::default()).construct::<LifecycleId, LifecycleItem>();
-    let (tx2, rx2) = channel();
-    let _w = parse_lifecycles_buffered_from_stream(lcs_w, rx, &|m| tx2.send(m));
-    drop(tx2);
-    let delivered: Vec<DltMessage> = rx2.iter().collect();
-    let mut first_seen: Vec<u32> = vec![];
-    for m in &delivered {
-        if m.lifecycle != 0 && !first_seen.contains(&m.lifecycle) {
-            first_seen.push(m.lifecycle);
-        }
-    }
-    let (lib, res) = {
-        let r = lcs_r.read().unwrap();
-        let l = get_sorted_lifecycles_as_vec(&r);
-        let min_id = r.iter().map(|(k, _)| *k).min().unwrap_or(1);
-        let lib: Vec<String> = l
-            .iter()
-            .filter(|l| !l.only_control_requests())
-            .map(|l| format!("{},{},{},{},{},{}", l.id() - min_id + 1, ecu_nr(l.ecu.as_u32le()), l.nr_msgs, l.start_time, l.end_time(), l.is_resume() as u8))
-            .collect();
-        #[cfg(adlt_verif)]
-        let res: Vec<String> = l.iter().filter_map(|l| l.resume_lc_id().map(|o| format!("{}-{}", l.id() - min_id + 1, o.wrapping_sub(min_id).wrapping_add(1)))).collect();
-        #[cfg(not(adlt_verif))]
-        let res: Vec<String> = vec![];
-        (lib, res)
-    };
     // the file
     let dir = tempfile::tempdir_in(std::env::var("VERIF_RUN_DIR").unwrap_or_else(|_| "/verif/build/run".to_string())).unwrap();
     let path = dir.path().join("t.dlt");
@@ -94,6 +59,37 @@ fn run(case: &str) -> String {
         }
         let _ = f.flush();
     }
+    // the library's own final table and listing for what is in the file (a message without a time stamp has none there)
+    let (tx, rx) = channel();
+    {
+        let f = std::fs::File::open(&path).unwrap();
+        let r = adlt::utils::LowMarkBufReader::new(f, 512 * 1024, adlt::dlt::DLT_MIN_PARSE_BUFFER_SIZE);
+        for d in adlt::utils::DltMessageIterator::new(0, r) {
+            tx.send(d).unwrap();
+        }
+    }
+    drop(tx);
+    let (lcs_r, lcs_w) = evmap::Options::default().with_hasher(nohash_hasher::BuildNoHashHasher::<LifecycleId>::default()).construct::<LifecycleId, LifecycleItem>();
+    let (tx2, rx2) = channel();
+    let _w = parse_lifecycles_buffered_from_stream(lcs_w, rx, &|m| tx2.send(m));
+    drop(tx2);
+    let delivered: usize = rx2.iter().count();
+    let rank = |ids: &Vec<u32>, id: u32| -> usize { ids.iter().position(|x| *x == id).map_or(0, |p| p + 1) };
+    let (lib, res) = {
+        let r = lcs_r.read().unwrap();
+        let mut ls: Vec<Lifecycle> = r.iter().map(|(_, v)| v.get_one().unwrap().clone()).filter(|l| !l.only_control_requests()).collect();
+        ls.sort_by_key(|l| l.id());
+        let ids: Vec<u32> = ls.iter().map(|l| l.id()).collect();
+        let lib: Vec<String> = ls
+            .iter()
+            .map(|l| format!("{},{},{},{},{},{}", rank(&ids, l.id()), ecu_nr(l.ecu.as_u32le()), l.nr_msgs, l.start_time, l.end_time(), l.is_resume() as u8))
+            .collect();
+        #[cfg(adlt_verif)]
+        let res: Vec<String> = ls.iter().filter_map(|l| l.resume_lc_id().filter(|o| ids.contains(o)).map(|o| format!("{}-{}", rank(&ids, l.id()), rank(&ids, o)))).collect();
+        #[cfg(not(adlt_verif))]
+        let res: Vec<String> = vec![];
+        (lib, res)
+    };
     let Some((mut child, mut ws)) = crate::rem::start_server() else {
         return "NOCONNECT".to_string();
     };
@@ -138,11 +134,12 @@ fn run(case: &str) -> String {
     if nr_file < total {
         return format!("INCOMPLETE {} of {}", nr_file, total);
     }
-    let min_id = table.keys().copied().min().unwrap_or(1).min(first_seen.iter().copied().min().unwrap_or(u32::MAX));
+    let ids: Vec<u32> = table.keys().copied().collect();
     let mut listed: Vec<&remote_types::BinLifecycle> = table.values().collect();
     listed.sort_by_key(|l| l.start_time); // stable: ties stay in id order
-    // the start time sent is `resume_start_time()`; the raw start is not part of the frame: the table entry is compared without it
-    let t: Vec<String> = listed.iter().map(|l| format!("{},{},{},{},{}", l.id - min_id + 1, ecu_nr(l.ecu), l.nr_msgs, l.end_time, l.resume_time.is_some() as u8)).collect();
+    // (the start time sent is `resume_start_time()`, the key of the listing; the raw start is not part of the frame)
+    let t: Vec<String> = listed.iter().map(|l| format!("{},{},{},{},{}", rank(&ids, l.id), ecu_nr(l.ecu), l.nr_msgs, l.end_time, l.resume_time.is_some() as u8)).collect();
+    let _ = delivered;
     format!("T:{} L:{} R:{}", t.join(" "), lib.join(" "), res.join(" "))
 }
 
